@@ -243,6 +243,8 @@ where
             }
         }
         if !did_update {
+            #[cfg(feature = "verif-hooks")]
+            crate::verif::hit(crate::verif::Site::bellman_ford_early_exit);
             break;
         }
     }
